@@ -233,7 +233,9 @@ func run(r *vt.Run, t vt.TB, s spec) {
 		}
 		// which column aliases the rowid? SQLite: the single pk column of a
 		// rowid table for which no pk autoindex exists
-		alias := ""
+		// (names carry a marker: a column may have the empty name)
+		const none = "\x00none"
+		alias := none
 		if !cat.WithoutRowid {
 			var pkcols []string
 			for _, c := range cat.Columns {
@@ -251,17 +253,17 @@ func run(r *vt.Run, t vt.TB, s spec) {
 				alias = pkcols[0]
 			}
 		}
-		gotAlias := ""
+		gotAlias := none
 		for _, c := range sch.Columns {
 			if c.Rowid {
-				if gotAlias != "" {
+				if gotAlias != none {
 					fail("two-rowid-aliases", "columns %q and %q both alias the rowid", gotAlias, c.Column)
 					return
 				}
 				gotAlias = c.Column
 			}
 		}
-		if !fold.Equal(gotAlias, alias) || sch.RowidPK != (alias != "") {
+		if !fold.Equal(gotAlias, alias) || sch.RowidPK != (alias != none) {
 			fail("rowid-alias-differs", "rowid alias column %q (RowidPK=%v), SQLite %q", gotAlias, sch.RowidPK, alias)
 			return
 		}
@@ -360,7 +362,7 @@ func run(r *vt.Run, t vt.TB, s spec) {
 			for _, c := range six.Columns {
 				n := fold.Lower(c.Column)
 				coll := normColl(c.Collate)
-				if c.Column == "" {
+				if c.Expression != "" {
 					n = "<expr>"
 				}
 				got = append(got, n+"/"+coll+"/"+c.SortOrder.String())
